@@ -181,7 +181,8 @@ func indexIngest(repo Repo, index *types.Index, conf config.Config, locked bool)
 	digestTags := []types.Descriptor{}
 	// loop over manifests
 	for _, desc := range index.Manifests {
-		desc := desc
+		// a copy: the entries are changed below, the descriptors kept here must not change with them
+		desc := desc.Copy()
 		seen[desc.Digest] = true
 		if desc.MediaType == types.MediaTypeOCI1ManifestList && desc.Annotations != nil {
 			if referrerTagRe.MatchString(desc.Annotations[types.AnnotRefName]) {
